@@ -529,6 +529,10 @@ MUTATORS = {
 }
 SPEC_MUTATORS = ('classImplements', 'rebase-interface')
 EXT_MUTATORS = ('unregister-unrelated-extendor',)     # run in the world with [P, PA, PB]
+OPCODE_LEVEL = ('changed', 'register', 'unregister', 'subscribe', 'unsubscribe', '_setBases',
+                '_subscribe', '_uncached_lookup', '_uncached_subscriptions', '_lookup',
+                '_subscriptions', '_getcache', 'lookup', 'subscriptions', 'add_extendor',
+                'remove_extendor', '_verify', '_setBases', '__setBases')
 SCHED_ENTRIES = ['lookup', 'lookup1', 'lookupAll', 'subscriptions', 'queryAdapter', 'adapter_hook']
 
 
@@ -663,6 +667,9 @@ def explore_harness(arg):
     shard = None
     mode = arg[5] if len(arg) > 5 else None      # None | 'root' | list of prefixes
     collect = arg[6] if len(arg) > 6 else False
+    # per-bytecode scheduling points inside the named functions (thorough tier)
+    sched.OPCODE_FUNCS.clear()
+    sched.OPCODE_FUNCS.update(arg[7] if len(arg) > 7 and arg[7] else ())
     gc.disable()
     import time as _time
     _t0 = _time.time()
@@ -678,6 +685,7 @@ def explore_harness(arg):
                        stack0=(mode if isinstance(mode, list) else
                                mode[1] if isinstance(mode, tuple) else None),
                        root_only=(mode == 'root' or isinstance(mode, tuple)))
+    sched.OPCODE_FUNCS.clear()
     try:
         os.unlink(jpath)
     except OSError:
@@ -697,6 +705,8 @@ def replay(case):
         return dict(violation=v) if v else None
     if case['kind'] == 'schedule':
         flavour, mutator, entries = case['flavour'], case['mutator'], list(case['entries'])
+        sched.OPCODE_FUNCS.clear()
+        sched.OPCODE_FUNCS.update(case.get('opcode') or ())
         gc.disable()
         out, v = sched.replay_schedule(make_harness(flavour, mutator, entries), WATCH,
                                        case['schedule'], make_check(flavour, mutator, entries))
@@ -848,8 +858,8 @@ def run(ctx):
     def plans_for(impl):
         plans = []          # (flavour, mutator, entries, bound, split?)
 
-        def add(flavour, mut, entries, bound, split=False):
-            plans.append((flavour, mut, entries, bound, split))
+        def add(flavour, mut, entries, bound, split=False, opcode=None):
+            plans.append((flavour, mut, entries, bound, split, opcode))
         for flavour in ('adapter', 'verifying'):
             for mut in MUTATORS:
                 for e in SCHED_ENTRIES + ['lookup-e']:
@@ -874,6 +884,11 @@ def run(ctx):
                 add(flavour, 'register', ['lookup', 'lookup'], 2, True)
                 add(flavour, 'unsubscribe', ['subscriptions', 'lookup1'], 2, True)
                 add(flavour, 'rebase-interface', ['lookup', 'queryAdapter'], 2, True)
+                # the same core harnesses with a scheduling point before every
+                # *bytecode* of the mutators and of the Python half of a lookup
+                for mut in ('register', 'unregister', 'subscribe', 'rebase-registry', 'rebase-interface'):
+                    for e in ('lookup', 'subscriptions'):
+                        add(flavour, mut, [e], 1, True, OPCODE_LEVEL)
         return plans
     nsched = 0
     outcomes = {}
@@ -882,14 +897,15 @@ def run(ctx):
         pool = ctx.pool(impl, capture_stderr=True)
         # phase 1: unsplit harnesses run whole; split ones run their default
         # schedule and hand back the first-level alternatives
-        tasks = [(p[0], p[1], p[2], p[3], None, 'root' if p[4] else None, collect) for p in plans]
+        tasks = [(p[0], p[1], p[2], p[3], None, 'root' if p[4] else None, collect, p[5]) for p in plans]
         res = pool.map('c11', 'explore_harness', tasks)
         def chunked(p, ch, size, mode):
             out = []
             for k in range(0, len(ch), size):
                 part = ch[k:k + size]
                 out.append((p[0], p[1], p[2], p[3], None,
-                            ('expand', part) if mode == 'expand' else part, collect))
+                            ('expand', part) if mode == 'expand' else part, collect,
+                            p[7] if len(p) > 7 else p[5]))
             return out
         tasks1 = []
         for p, r in zip(plans, res):
@@ -905,7 +921,8 @@ def run(ctx):
         res2 = pool.map('c11', 'explore_harness', tasks2)
         agg = {}
         for plan, r in list(zip(tasks, res)) + list(zip(tasks2, res2)):
-            label = '%s/%s||%s/bound%d' % (plan[0], plan[1], '+'.join(plan[2]), plan[3])
+            label = '%s/%s||%s/bound%d%s' % (plan[0], plan[1], '+'.join(plan[2]), plan[3],
+                                             '/per-bytecode' if plan[7] else '')
             if isinstance(r, Crash):
                 ctx.violation(dict(sig='C11:schedule:interpreter-crash', impl=impl, crash=True,
                                    case=dict(kind='crash', flavour=plan[0], mutator=plan[1],
@@ -929,7 +946,7 @@ def run(ctx):
             for v in vs:
                 ctx.violation(dict(sig='C11:schedule:%s' % v['violation'][0], impl=impl,
                                    case=dict(kind='schedule', flavour=plan[0], mutator=plan[1],
-                                             entries=plan[2], schedule=v['schedule']),
+                                             entries=plan[2], schedule=v['schedule'], opcode=plan[7]),
                                    detail=dict(harness=label, schedule_switches=[i for i, c in enumerate(v['schedule']) if c],
                                                violation=v['violation'])))
         for label, a in agg.items():
